@@ -371,3 +371,5 @@ def run_case(case, res):
         run_extsplit(case, res)
     else:
         run_cell(case, res)
+
+RULE += (" " + 'A leading-dimension error profile (one dimension several levels ahead before the others follow) carries extra weight; the tensor-grid entry point interpolate_grid is judged as well; typed / integer / mixed-scale domains.')
